@@ -1,2 +1,1462 @@
-//! C16 workload (under construction).
-fn main() {}
+//! C16 — every codec integration round-trips, advertises a length that is
+//! consistent with the bytes it produces, and emits its format's reference
+//! encoding (and, where the codec crate encodes u64/u128 itself, the very same
+//! bytes as the equal primitive).
+//!
+//! One case = (op = integration, bits, [value]); every sub-claim has its own
+//! `kind`. The reference encoders below work on the raw limbs only and never
+//! call ruint's byte conversion functions.
+
+use num_bigint::{BigInt, BigUint};
+use ruint::{Bits, Uint};
+use std::collections::HashSet;
+use vmon::{au, big, gen, uint, Arg, Mon};
+
+vmon::widths!(exec; 0, 1, 7, 8, 9, 16, 31, 32, 60, 63, 64, 65, 127, 128, 129, 160, 192, 250, 255,
+    256, 257, 320, 384, 440, 441, 448, 512, 535, 1024);
+
+/// SCALE compact is documented to support values below 2^536 only.
+const COMPACT_LIMIT: usize = 536;
+
+const BN254_FR: &str = "21888242871839275222246405745257275088548364400416034343698204186575808495617";
+const BN254_FQ: &str = "21888242871839275222246405745257275088696311157297823662689037894645226208583";
+
+// ---------------------------------------------------------------------------
+// Raw-limb byte views (independent of ruint)
+// ---------------------------------------------------------------------------
+
+const fn nbytes(bits: usize) -> usize {
+    (bits + 7) / 8
+}
+
+/// The `n` low little-endian bytes of the value; the rest must be zero.
+fn le_bytes(limbs: &[u64], n: usize) -> Vec<u8> {
+    let mut out = Vec::with_capacity(limbs.len() * 8);
+    for l in limbs {
+        out.extend_from_slice(&l.to_le_bytes());
+    }
+    assert!(n <= out.len() && out[n..].iter().all(|&b| b == 0), "harness: value does not fit {n} bytes");
+    out.truncate(n);
+    out
+}
+
+fn be_bytes(limbs: &[u64], n: usize) -> Vec<u8> {
+    let mut v = le_bytes(limbs, n);
+    v.reverse();
+    v
+}
+
+/// Little-endian bytes without most-significant zero bytes (empty for zero).
+fn le_min(limbs: &[u64]) -> Vec<u8> {
+    let mut v = le_bytes(limbs, limbs.len() * 8);
+    while v.last() == Some(&0) {
+        v.pop();
+    }
+    v
+}
+
+/// Big-endian bytes without leading zero bytes (empty for zero).
+fn be_min(limbs: &[u64]) -> Vec<u8> {
+    let mut v = le_min(limbs);
+    v.reverse();
+    v
+}
+
+fn fits_u64(limbs: &[u64]) -> bool {
+    limbs.iter().skip(1).all(|&l| l == 0)
+}
+
+fn fits_u128(limbs: &[u64]) -> bool {
+    limbs.iter().skip(2).all(|&l| l == 0)
+}
+
+fn lo_u64(limbs: &[u64]) -> u64 {
+    limbs.first().copied().unwrap_or(0)
+}
+
+fn lo_u128(limbs: &[u64]) -> u128 {
+    u128::from(lo_u64(limbs)) | (u128::from(limbs.get(1).copied().unwrap_or(0)) << 64)
+}
+
+fn ge2(limbs: &[u64]) -> bool {
+    !fits_u64(limbs) || lo_u64(limbs) >= 2
+}
+
+fn hexs(b: &[u8]) -> String {
+    let mut s = String::with_capacity(2 * b.len() + 2);
+    s.push_str("0x");
+    for x in b {
+        s.push_str(&format!("{x:02x}"));
+    }
+    s
+}
+
+// ---------------------------------------------------------------------------
+// Reference encoders, written from the format definitions
+// ---------------------------------------------------------------------------
+
+/// RLP string item (Ethereum yellow paper, appendix B).
+fn rlp_string(payload: &[u8]) -> Vec<u8> {
+    if payload.len() == 1 && payload[0] < 0x80 {
+        return vec![payload[0]];
+    }
+    let mut out = Vec::with_capacity(payload.len() + 9);
+    if payload.len() <= 55 {
+        out.push(0x80 + payload.len() as u8);
+    } else {
+        let l = be_min(&[payload.len() as u64]);
+        out.push(0xb7 + l.len() as u8);
+        out.extend_from_slice(&l);
+    }
+    out.extend_from_slice(payload);
+    out
+}
+
+/// RLP scalar: the minimal big-endian byte string of the value.
+fn ref_rlp(limbs: &[u64]) -> Vec<u8> {
+    rlp_string(&be_min(limbs))
+}
+
+/// SCALE compact / general integer, four modes.
+fn ref_compact(limbs: &[u64]) -> Vec<u8> {
+    let bl = gen::bit_len(limbs);
+    let lo = lo_u64(limbs);
+    if bl <= 6 {
+        vec![(lo as u8) << 2]
+    } else if bl <= 14 {
+        (((lo as u16) << 2) | 0b01).to_le_bytes().to_vec()
+    } else if bl <= 30 {
+        (((lo as u32) << 2) | 0b10).to_le_bytes().to_vec()
+    } else {
+        let le = le_min(limbs);
+        assert!(le.len() >= 4 && le.len() <= 67, "harness: compact reference outside 2^536");
+        let mut out = vec![(((le.len() - 4) as u8) << 2) | 0b11];
+        out.extend_from_slice(&le);
+        out
+    }
+}
+
+/// ruint's documented fixed SCALE form: a SCALE byte vector (compact length
+/// prefix + payload) holding the BYTES-long little-endian value.
+fn ref_scale_fixed(limbs: &[u64], bits: usize) -> Vec<u8> {
+    let n = nbytes(bits);
+    let mut out = ref_compact(&[n as u64]);
+    out.extend_from_slice(&le_bytes(limbs, n));
+    out
+}
+
+/// Canonical DER INTEGER (X.690 8.3, 10.1): returns (content, whole TLV).
+fn ref_der(limbs: &[u64]) -> (Vec<u8>, Vec<u8>) {
+    let mut content = be_min(limbs);
+    if content.is_empty() || content[0] >= 0x80 {
+        content.insert(0, 0);
+    }
+    let mut out = vec![0x02];
+    let n = content.len();
+    if n < 0x80 {
+        out.push(n as u8);
+    } else {
+        let l = be_min(&[n as u64]);
+        out.push(0x80 | l.len() as u8);
+        out.extend_from_slice(&l);
+    }
+    out.extend_from_slice(&content);
+    (content, out)
+}
+
+/// Ethereum JSON "quantity": 0x-prefixed hex without leading zeros, "0x0".
+fn ref_quantity(limbs: &[u64]) -> String {
+    let be = be_min(limbs);
+    if be.is_empty() {
+        return "0x0".into();
+    }
+    let mut s = format!("0x{:x}", be[0]);
+    for b in &be[1..] {
+        s.push_str(&format!("{b:02x}"));
+    }
+    s
+}
+
+/// bincode 1.x default options: byte string = u64-LE length + bytes; ruint's
+/// binary serde form is the BYTES-long big-endian string.
+fn ref_bincode(limbs: &[u64], bits: usize) -> Vec<u8> {
+    let n = nbytes(bits);
+    let mut out = (n as u64).to_le_bytes().to_vec();
+    out.extend_from_slice(&be_bytes(limbs, n));
+    out
+}
+
+// ---------------------------------------------------------------------------
+// Small judging helpers
+// ---------------------------------------------------------------------------
+
+fn bytes_eq(m: &mut Mon, kind: &str, observed: &[u8], expected: &[u8]) -> bool {
+    m.check(observed == expected, kind, || hexs(expected), || hexs(observed))
+}
+
+/// A decode result must be `Ok(original value)`.
+fn decoded<const B: usize, const L: usize, E: std::fmt::Debug>(
+    m: &mut Mon,
+    kind: &str,
+    r: Option<Result<Uint<B, L>, E>>,
+    limbs: &[u64],
+) {
+    match r {
+        Some(Ok(d)) => {
+            m.eq_uint(kind, &d, limbs);
+        }
+        Some(Err(e)) => m.fail(kind, &format!("Ok({})", big::hex(limbs)), &format!("Err({e:?})")),
+        None => {}
+    }
+}
+
+/// An encode result must be `Ok(bytes)`.
+fn encoded<E: std::fmt::Debug>(m: &mut Mon, kind: &str, r: Option<Result<Vec<u8>, E>>) -> Option<Vec<u8>> {
+    match r {
+        Some(Ok(b)) => Some(b),
+        Some(Err(e)) => {
+            m.fail(kind, "Ok(bytes)", &format!("Err({e:?})"));
+            None
+        }
+        None => None,
+    }
+}
+
+/// Like `Mon::must` but with a caller-chosen narrow kind for the panic.
+fn must_k<T>(m: &mut Mon, kind: &str, f: impl FnOnce() -> T) -> Option<T> {
+    match m.call(f) {
+        Ok(v) => Some(v),
+        Err(p) => {
+            if p.msg.starts_with(vmon::mon::hooks::LOOP_CAP_MESSAGE) {
+                m.unexpected_panic(&p);
+            } else {
+                m.fail(kind, "no panic", &format!("panic: {} at {}:{}", p.msg, vmon::mon::short_file(&p.file), p.line));
+            }
+            None
+        }
+    }
+}
+
+// ---------------------------------------------------------------------------
+// serde
+// ---------------------------------------------------------------------------
+
+fn op_json<const B: usize, const L: usize>(m: &mut Mon, limbs: &[u64]) {
+    let v: Uint<B, L> = uint(limbs);
+    let want = format!("\"{}\"", ref_quantity(limbs));
+    m.obs(|| format!("json={want}"));
+    let r = m.must(|| serde_json::to_string(&v).map(String::into_bytes));
+    if let Some(text) = encoded(m, "json.encode", r) {
+        bytes_eq(m, "json.text", &text, want.as_bytes());
+        let r = m.must(|| serde_json::from_slice::<Uint<B, L>>(&text));
+        decoded(m, "json.roundtrip", r, limbs);
+    }
+    // through serde_json::Value
+    match m.must(|| serde_json::to_value(v)) {
+        Some(Ok(val)) => {
+            let exp = serde_json::Value::String(ref_quantity(limbs));
+            m.eq("json.value", &val, &exp);
+            let r = m.must(|| serde_json::from_value::<Uint<B, L>>(val));
+            decoded(m, "json.value.roundtrip", r, limbs);
+        }
+        Some(Err(e)) => m.fail("json.value.encode", "Ok(value)", &format!("Err({e:?})")),
+        None => {}
+    }
+    // Bits: round-trip only (its text form is not a quantity).
+    let b = Bits::from(v);
+    let r = m.must(|| serde_json::to_string(&b).map(String::into_bytes));
+    if let Some(text) = encoded(m, "json.bits.encode", r) {
+        let r = m.must(|| serde_json::from_slice::<Bits<B, L>>(&text).map(Bits::into_inner));
+        decoded(m, "json.bits.roundtrip", r, limbs);
+    }
+}
+
+fn op_bincode<const B: usize, const L: usize>(m: &mut Mon, limbs: &[u64]) {
+    let v: Uint<B, L> = uint(limbs);
+    let want = ref_bincode(limbs, B);
+    m.obs(|| format!("bincode={}", hexs(&want)));
+    let size = m.must(|| bincode::serialized_size(&v));
+    let r = m.must(|| bincode::serialize(&v));
+    if let Some(bytes) = encoded(m, "bincode.encode", r) {
+        bytes_eq(m, "bincode.bytes", &bytes, &want);
+        match size {
+            Some(Ok(s)) => {
+                m.eq("bincode.size", &s, &(bytes.len() as u64));
+            }
+            Some(Err(e)) => m.fail("bincode.size", "Ok(len)", &format!("Err({e:?})")),
+            None => {}
+        }
+        let r = m.must(|| bincode::deserialize::<Uint<B, L>>(&bytes));
+        decoded(m, "bincode.roundtrip", r, limbs);
+        // from a reader
+        let r = m.must(|| bincode::deserialize_from::<_, Uint<B, L>>(&mut &bytes[..]));
+        decoded(m, "bincode.reader.roundtrip", r, limbs);
+    }
+    let b = Bits::from(v);
+    let r = m.must(|| bincode::serialize(&b));
+    if let Some(bytes) = encoded(m, "bincode.bits.encode", r) {
+        bytes_eq(m, "bincode.bits.bytes", &bytes, &want);
+        let r = m.must(|| bincode::deserialize::<Bits<B, L>>(&bytes).map(Bits::into_inner));
+        decoded(m, "bincode.bits.roundtrip", r, limbs);
+    }
+}
+
+// ---------------------------------------------------------------------------
+// RLP family
+// ---------------------------------------------------------------------------
+
+fn op_rlp<const B: usize, const L: usize>(m: &mut Mon, limbs: &[u64]) {
+    let v: Uint<B, L> = uint(limbs);
+    let want = ref_rlp(limbs);
+    m.obs(|| format!("rlp={}", hexs(&want)));
+    if let Some(bytes) = m.must(|| rlp::encode(&v).to_vec()) {
+        bytes_eq(m, "rlp.bytes", &bytes, &want);
+        if fits_u64(limbs) {
+            let p = rlp::encode(&lo_u64(limbs)).to_vec();
+            bytes_eq(m, "rlp.prim_u64", &bytes, &p);
+        }
+        if fits_u128(limbs) {
+            let p = rlp::encode(&lo_u128(limbs)).to_vec();
+            bytes_eq(m, "rlp.prim_u128", &bytes, &p);
+        }
+        let r = m.must(|| rlp::decode::<Uint<B, L>>(&bytes));
+        decoded(m, "rlp.roundtrip", r, limbs);
+    }
+    // Bits: a BYTES-long string; round-trip only.
+    let b = Bits::from(v);
+    if let Some(bytes) = m.must(|| rlp::encode(&b).to_vec()) {
+        let r = m.must(|| rlp::decode::<Bits<B, L>>(&bytes).map(Bits::into_inner));
+        decoded(m, "rlp.bits.roundtrip", r, limbs);
+    }
+}
+
+macro_rules! rlp_like {
+    ($name:ident, $krate:ident, $p:literal) => {
+        /// Returns the produced bytes (if the encoder did not panic).
+        fn $name<const B: usize, const L: usize>(m: &mut Mon, limbs: &[u64]) -> Option<Vec<u8>> {
+            let v: Uint<B, L> = uint(limbs);
+            let want = ref_rlp(limbs);
+            m.obs(|| format!("rlp={}", hexs(&want)));
+            let len = m.must(|| <Uint<B, L> as $krate::Encodable>::length(&v));
+            let bytes = m.must(|| {
+                let mut out: Vec<u8> = Vec::new();
+                <Uint<B, L> as $krate::Encodable>::encode(&v, &mut out);
+                out
+            })?;
+            bytes_eq(m, concat!($p, ".bytes"), &bytes, &want);
+            if let Some(len) = len {
+                m.eq(concat!($p, ".length"), &len, &bytes.len());
+                // a caller that reserves exactly `length()` bytes must succeed
+                // (a wildly wrong length is already reported above; do not allocate it)
+                let exact = if len <= bytes.len() + 4096 {
+                    must_k(m, concat!($p, ".encode_into_exact.panic"), || {
+                        let mut buf = vec![0u8; len];
+                        let rest = {
+                            let mut s: &mut [u8] = &mut buf[..];
+                            <Uint<B, L> as $krate::Encodable>::encode(&v, &mut s);
+                            s.len()
+                        };
+                        buf.truncate(len - rest);
+                        buf
+                    })
+                } else {
+                    None
+                };
+                if let Some(b2) = exact {
+                    bytes_eq(m, concat!($p, ".encode_into_exact"), &b2, &bytes);
+                }
+            }
+            let max = <Uint<B, L> as $krate::MaxEncodedLenAssoc>::LEN;
+            m.check(max >= bytes.len(), concat!($p, ".max_len_assoc"), || format!(">= {}", bytes.len()), || max.to_string());
+            if fits_u64(limbs) {
+                let mut p: Vec<u8> = Vec::new();
+                <u64 as $krate::Encodable>::encode(&lo_u64(limbs), &mut p);
+                bytes_eq(m, concat!($p, ".prim_u64"), &bytes, &p);
+            }
+            if fits_u128(limbs) {
+                let mut p: Vec<u8> = Vec::new();
+                <u128 as $krate::Encodable>::encode(&lo_u128(limbs), &mut p);
+                bytes_eq(m, concat!($p, ".prim_u128"), &bytes, &p);
+            }
+            if let Some((r, rest)) = m.must(|| {
+                let mut s = &bytes[..];
+                let r = <Uint<B, L> as $krate::Decodable>::decode(&mut s);
+                (r, s.len())
+            }) {
+                let ok = r.is_ok();
+                decoded(m, concat!($p, ".roundtrip"), Some(r), limbs);
+                if ok {
+                    m.eq(concat!($p, ".decode.rest"), &rest, &0usize);
+                }
+            }
+            Some(bytes)
+        }
+    };
+}
+
+rlp_like!(op_alloy_rlp, alloy_rlp, "alloy_rlp");
+rlp_like!(op_fastrlp_03, fastrlp_03, "fastrlp_03");
+rlp_like!(op_fastrlp_04, fastrlp_04, "fastrlp_04");
+
+fn alloy_n<T: alloy_rlp::MaxEncodedLen<N>, const N: usize>(_: &T) -> usize {
+    N
+}
+
+/// alloy-rlp extras: the `encode` helper (allocates `length()` up front),
+/// `decode_exact`, and `MaxEncodedLen<N>` on the widths that implement it.
+fn alloy_extra<const B: usize, const L: usize>(m: &mut Mon, limbs: &[u64], bytes: &[u8]) {
+    let v: Uint<B, L> = uint(limbs);
+    if let Some(b2) = m.must(|| alloy_rlp::encode(v)) {
+        bytes_eq(m, "alloy_rlp.encode_fn", &b2, bytes);
+    }
+    let r = m.must(|| alloy_rlp::decode_exact::<Uint<B, L>>(bytes));
+    decoded(m, "alloy_rlp.decode_exact", r, limbs);
+    macro_rules! at {
+        ($($w:literal),*) => {
+            match B {
+                $($w => {
+                    let v: Uint<$w, { ($w + 63) / 64 }> = uint(limbs);
+                    let n = alloy_n(&v);
+                    m.check(n >= bytes.len(), "alloy_rlp.max_len_n", || format!(">= {}", bytes.len()), || n.to_string());
+                })*
+                _ => {}
+            }
+        };
+    }
+    at!(0, 1, 8, 16, 32, 64, 128, 160, 192, 256, 384, 512);
+}
+
+macro_rules! fastrlp_fixed {
+    ($name:ident, $krate:ident, $p:literal; $($w:literal),*) => {
+        /// `encode_fixed_size` writes into an `ArrayVec<u8, N>` whose capacity
+        /// is the advertised `MaxEncodedLen<N>`.
+        fn $name(m: &mut Mon, bits: usize, limbs: &[u64], bytes: &[u8]) {
+            match bits {
+                $($w => {
+                    let v: Uint<$w, { ($w + 63) / 64 }> = uint(limbs);
+                    if let Some((b2, cap)) = m.must(|| {
+                        let av = $krate::encode_fixed_size(&v);
+                        (av.to_vec(), av.capacity())
+                    }) {
+                        bytes_eq(m, concat!($p, ".encode_fixed_size"), &b2, bytes);
+                        m.check(cap >= bytes.len(), concat!($p, ".max_len_n"), || format!(">= {}", bytes.len()), || cap.to_string());
+                    }
+                })*
+                _ => {}
+            }
+        }
+    };
+}
+
+fastrlp_fixed!(fastrlp_03_fixed, fastrlp_03, "fastrlp_03"; 0, 1, 8, 16, 32, 64, 128, 160, 192, 256, 384, 512);
+fastrlp_fixed!(fastrlp_04_fixed, fastrlp_04, "fastrlp_04"; 0, 1, 8, 16, 32, 64, 128, 160, 192, 256, 384, 512);
+
+// ---------------------------------------------------------------------------
+// SCALE
+// ---------------------------------------------------------------------------
+
+fn op_scale_fixed<const B: usize, const L: usize>(m: &mut Mon, limbs: &[u64]) {
+    use parity_scale_codec as psc;
+    let v: Uint<B, L> = uint(limbs);
+    let want = ref_scale_fixed(limbs, B);
+    m.obs(|| format!("scale={}", hexs(&want)));
+    let hint = m.must(|| <Uint<B, L> as psc::Encode>::size_hint(&v));
+    let size = m.must(|| <Uint<B, L> as psc::Encode>::encoded_size(&v));
+    let max = m.must(<Uint<B, L> as psc::MaxEncodedLen>::max_encoded_len);
+    let Some(bytes) = m.must(|| <Uint<B, L> as psc::Encode>::encode(&v)) else {
+        return;
+    };
+    bytes_eq(m, "scale.fixed.bytes", &bytes, &want);
+    if let Some(b2) = m.must(|| {
+        let mut out: Vec<u8> = Vec::new();
+        <Uint<B, L> as psc::Encode>::encode_to(&v, &mut out);
+        out
+    }) {
+        bytes_eq(m, "scale.fixed.encode_to", &b2, &bytes);
+    }
+    if let Some(size) = size {
+        m.eq("scale.fixed.encoded_size", &size, &bytes.len());
+    }
+    if let Some(hint) = hint {
+        // documented as "u32 prefix + BYTES": an upper bound
+        m.check(hint >= bytes.len(), "scale.fixed.size_hint", || format!(">= {}", bytes.len()), || hint.to_string());
+    }
+    if let Some(max) = max {
+        m.check(max >= bytes.len(), "scale.fixed.max_encoded_len", || format!(">= {}", bytes.len()), || max.to_string());
+    }
+    if let Some((r, rest)) = m.must(|| {
+        let mut s = &bytes[..];
+        let r = <Uint<B, L> as psc::Decode>::decode(&mut s);
+        (r, s.len())
+    }) {
+        let ok = r.is_ok();
+        decoded(m, "scale.fixed.roundtrip", Some(r), limbs);
+        if ok {
+            m.eq("scale.fixed.decode.rest", &rest, &0usize);
+        }
+    }
+    // embedded between other fields: must consume exactly its own bytes
+    if let Some(tb) = m.must(|| <(u8, Uint<B, L>, u8) as psc::Encode>::encode(&(0x5a, v, 0xa5))) {
+        let mut exp = vec![0x5a];
+        exp.extend_from_slice(&want);
+        exp.push(0xa5);
+        bytes_eq(m, "scale.fixed.tuple.bytes", &tb, &exp);
+        match m.must(|| <(u8, Uint<B, L>, u8) as psc::Decode>::decode(&mut &tb[..])) {
+            Some(Ok((h, d, t))) => {
+                m.eq_uint("scale.fixed.tuple.roundtrip", &d, limbs);
+                m.eq("scale.fixed.tuple.frame", &(h, t), &(0x5a, 0xa5));
+            }
+            Some(Err(e)) => m.fail("scale.fixed.tuple.roundtrip", "Ok", &format!("Err({e:?})")),
+            None => {}
+        }
+    }
+}
+
+#[derive(parity_scale_codec::Encode, parity_scale_codec::Decode)]
+struct CompactField<const B: usize, const L: usize> {
+    head:  u8,
+    #[codec(compact)]
+    value: Uint<B, L>,
+    tail:  u8,
+}
+
+fn op_scale_compact<const B: usize, const L: usize>(m: &mut Mon, limbs: &[u64]) {
+    use parity_scale_codec as psc;
+    use ruint::support::scale::{CompactRefUint, CompactUint};
+    if B >= COMPACT_LIMIT {
+        // documented panic by design; excluded from the property
+        m.nontrivial(false);
+        return;
+    }
+    let v: Uint<B, L> = uint(limbs);
+    let want = ref_compact(limbs);
+    m.obs(|| format!("compact={}", hexs(&want)));
+    // The bytes, through the entry point that does not consult the size hint.
+    let Some(bytes) = must_k(m, "scale.compact.encode_to.panic", || {
+        let mut out: Vec<u8> = Vec::new();
+        <CompactRefUint<'_, B, L> as psc::Encode>::encode_to(&CompactRefUint(&v), &mut out);
+        out
+    }) else {
+        return;
+    };
+    bytes_eq(m, "scale.compact.bytes", &bytes, &want);
+    if fits_u64(limbs) {
+        let p = <psc::Compact<u64> as psc::Encode>::encode(&psc::Compact(lo_u64(limbs)));
+        bytes_eq(m, "scale.compact.prim_u64", &bytes, &p);
+    }
+    if fits_u128(limbs) {
+        let p = <psc::Compact<u128> as psc::Encode>::encode(&psc::Compact(lo_u128(limbs)));
+        bytes_eq(m, "scale.compact.prim_u128", &bytes, &p);
+    }
+    // Advertised sizes.
+    if let Some(size) = must_k(m, "scale.compact.encoded_size.panic", || {
+        <CompactRefUint<'_, B, L> as psc::Encode>::encoded_size(&CompactRefUint(&v))
+    }) {
+        m.eq("scale.compact.encoded_size", &size, &bytes.len());
+    }
+    if let Some(hint) = must_k(m, "scale.compact.size_hint.panic", || {
+        <CompactRefUint<'_, B, L> as psc::Encode>::size_hint(&CompactRefUint(&v))
+    }) {
+        // ruint computes the exact per-mode length here; report the two
+        // directions separately (too small = reallocation / not a bound,
+        // too large = over-allocation).
+        m.check(hint >= bytes.len(), "scale.compact.size_hint.under", || bytes.len().to_string(), || hint.to_string());
+        m.check(hint <= bytes.len(), "scale.compact.size_hint.over", || bytes.len().to_string(), || hint.to_string());
+    }
+    // `encode()` allocates `size_hint()` bytes first: the hint must not make it fail.
+    if let Some(b2) = must_k(m, "scale.compact.encode.panic", || {
+        <CompactRefUint<'_, B, L> as psc::Encode>::encode(&CompactRefUint(&v))
+    }) {
+        bytes_eq(m, "scale.compact.encode", &b2, &bytes);
+    }
+    // Decode.
+    if let Some((r, rest)) = m.must(|| {
+        let mut s = &bytes[..];
+        let r = <CompactUint<B, L> as psc::Decode>::decode(&mut s).map(|c| c.0);
+        (r, s.len())
+    }) {
+        let ok = r.is_ok();
+        decoded(m, "scale.compact.roundtrip", Some(r), limbs);
+        if ok {
+            m.eq("scale.compact.decode.rest", &rest, &0usize);
+        }
+    }
+    // `#[codec(compact)]` field in a derived struct.
+    let f = CompactField::<B, L> { head: 0x5a, value: v, tail: 0xa5 };
+    if let Some(sb) = must_k(m, "scale.compact.derive.encode.panic", || <CompactField<B, L> as psc::Encode>::encode(&f)) {
+        let mut exp = vec![0x5a];
+        exp.extend_from_slice(&want);
+        exp.push(0xa5);
+        bytes_eq(m, "scale.compact.derive.bytes", &sb, &exp);
+    }
+    let mut framed = vec![0x5a];
+    framed.extend_from_slice(&bytes);
+    framed.push(0xa5);
+    match m.must(|| <CompactField<B, L> as psc::Decode>::decode(&mut &framed[..])) {
+        Some(Ok(d)) => {
+            m.eq_uint("scale.compact.derive.roundtrip", &d.value, limbs);
+            m.eq("scale.compact.derive.frame", &(d.head, d.tail), &(0x5a, 0xa5));
+        }
+        Some(Err(e)) => m.fail("scale.compact.derive.roundtrip", "Ok", &format!("Err({e:?})")),
+        None => {}
+    }
+}
+
+// ---------------------------------------------------------------------------
+// SSZ, borsh
+// ---------------------------------------------------------------------------
+
+fn op_ssz<const B: usize, const L: usize>(m: &mut Mon, limbs: &[u64]) {
+    let v: Uint<B, L> = uint(limbs);
+    let want = le_bytes(limbs, nbytes(B));
+    m.obs(|| format!("ssz={}", hexs(&want)));
+    let blen = m.must(|| <Uint<B, L> as ssz::Encode>::ssz_bytes_len(&v));
+    let flen = m.must(<Uint<B, L> as ssz::Encode>::ssz_fixed_len);
+    let dflen = m.must(<Uint<B, L> as ssz::Decode>::ssz_fixed_len);
+    let fixed = m.must(|| (<Uint<B, L> as ssz::Encode>::is_ssz_fixed_len(), <Uint<B, L> as ssz::Decode>::is_ssz_fixed_len()));
+    let Some(bytes) = m.must(|| <Uint<B, L> as ssz::Encode>::as_ssz_bytes(&v)) else {
+        return;
+    };
+    bytes_eq(m, "ssz.bytes", &bytes, &want);
+    if let Some(x) = blen {
+        m.eq("ssz.bytes_len", &x, &bytes.len());
+    }
+    if let Some(x) = flen {
+        m.eq("ssz.fixed_len", &x, &bytes.len());
+    }
+    if let Some(x) = dflen {
+        m.eq("ssz.decode.fixed_len", &x, &bytes.len());
+    }
+    if let Some(x) = fixed {
+        m.eq("ssz.is_fixed_len", &x, &(true, true));
+    }
+    if let Some(b2) = m.must(|| {
+        let mut buf = vec![0x5a, 0xa5];
+        <Uint<B, L> as ssz::Encode>::ssz_append(&v, &mut buf);
+        buf
+    }) {
+        let mut exp = vec![0x5a, 0xa5];
+        exp.extend_from_slice(&want);
+        bytes_eq(m, "ssz.append", &b2, &exp);
+    }
+    ssz_prim(m, B, limbs, &bytes);
+    let r = m.must(|| <Uint<B, L> as ssz::Decode>::from_ssz_bytes(&bytes));
+    decoded(m, "ssz.roundtrip", r, limbs);
+}
+
+/// The ssz crate's own fixed-width unsigned integers.
+fn ssz_prim(m: &mut Mon, bits: usize, limbs: &[u64], bytes: &[u8]) {
+    let lo = lo_u64(limbs);
+    let p = match bits {
+        8 => ssz::Encode::as_ssz_bytes(&(lo as u8)),
+        16 => ssz::Encode::as_ssz_bytes(&(lo as u16)),
+        32 => ssz::Encode::as_ssz_bytes(&(lo as u32)),
+        64 => ssz::Encode::as_ssz_bytes(&lo),
+        128 => {
+            let a = ssz::Encode::as_ssz_bytes(&lo_u128(limbs));
+            let b = ssz::Encode::as_ssz_bytes(&primitive_types::U128([limbs[0], limbs[1]]));
+            bytes_eq(m, "ssz.prim_U128", bytes, &b);
+            a
+        }
+        256 => ssz::Encode::as_ssz_bytes(&primitive_types::U256([limbs[0], limbs[1], limbs[2], limbs[3]])),
+        _ => return,
+    };
+    bytes_eq(m, "ssz.prim", bytes, &p);
+}
+
+fn op_borsh<const B: usize, const L: usize>(m: &mut Mon, limbs: &[u64]) {
+    let v: Uint<B, L> = uint(limbs);
+    let want = le_bytes(limbs, nbytes(B));
+    m.obs(|| format!("borsh={}", hexs(&want)));
+    let r = m.must(|| borsh::to_vec(&v));
+    let Some(bytes) = encoded(m, "borsh.encode", r) else {
+        return;
+    };
+    bytes_eq(m, "borsh.bytes", &bytes, &want);
+    let lo = lo_u64(limbs);
+    let p = match B {
+        8 => Some(borsh::to_vec(&(lo as u8))),
+        16 => Some(borsh::to_vec(&(lo as u16))),
+        32 => Some(borsh::to_vec(&(lo as u32))),
+        64 => Some(borsh::to_vec(&lo)),
+        128 => Some(borsh::to_vec(&lo_u128(limbs))),
+        _ => None,
+    };
+    if let Some(p) = p {
+        bytes_eq(m, "borsh.prim", &bytes, &p.expect("harness: borsh primitive"));
+    }
+    let r = m.must(|| borsh::from_slice::<Uint<B, L>>(&bytes));
+    decoded(m, "borsh.roundtrip", r, limbs);
+    let r = m.must(|| <Uint<B, L> as borsh::BorshDeserialize>::try_from_slice(&bytes));
+    decoded(m, "borsh.try_from_slice", r, limbs);
+    // embedded between other fields: must consume exactly BYTES bytes
+    let r = m.must(|| borsh::to_vec(&(true, v, 0xa5u8)));
+    if let Some(tb) = encoded(m, "borsh.tuple.encode", r) {
+        let mut exp = vec![1u8];
+        exp.extend_from_slice(&want);
+        exp.push(0xa5);
+        bytes_eq(m, "borsh.tuple.bytes", &tb, &exp);
+        match m.must(|| borsh::from_slice::<(bool, Uint<B, L>, u8)>(&tb)) {
+            Some(Ok((h, d, t))) => {
+                m.eq_uint("borsh.tuple.roundtrip", &d, limbs);
+                m.eq("borsh.tuple.frame", &(h, t), &(true, 0xa5));
+            }
+            Some(Err(e)) => m.fail("borsh.tuple.roundtrip", "Ok", &format!("Err({e:?})")),
+            None => {}
+        }
+    }
+    let b = Bits::from(v);
+    let r = m.must(|| borsh::to_vec(&b));
+    if let Some(bb) = encoded(m, "borsh.bits.encode", r) {
+        bytes_eq(m, "borsh.bits.bytes", &bb, &want);
+        let r = m.must(|| borsh::from_slice::<Bits<B, L>>(&bb).map(Bits::into_inner));
+        decoded(m, "borsh.bits.roundtrip", r, limbs);
+    }
+}
+
+// ---------------------------------------------------------------------------
+// DER
+// ---------------------------------------------------------------------------
+
+fn op_der<const B: usize, const L: usize>(m: &mut Mon, limbs: &[u64]) {
+    use der::asn1::{Any, Int, Uint as DerUint};
+    let v: Uint<B, L> = uint(limbs);
+    let (content, want) = ref_der(limbs);
+    m.obs(|| format!("der={}", hexs(&want)));
+    let vlen = m.must(|| <Uint<B, L> as der::EncodeValue>::value_len(&v).map(u32::from));
+    let elen = m.must(|| <Uint<B, L> as der::Encode>::encoded_len(&v).map(u32::from));
+    let r = m.must(|| <Uint<B, L> as der::Encode>::to_der(&v));
+    let Some(bytes) = encoded(m, "der.encode", r) else {
+        return;
+    };
+    bytes_eq(m, "der.bytes", &bytes, &want);
+    match vlen {
+        Some(Ok(x)) => {
+            // advertised content length vs. the content actually produced
+            let header = if bytes.len() >= 2 && bytes[1] >= 0x80 { 2 + (bytes[1] & 0x7f) as usize } else { 2 };
+            m.eq("der.value_len", &(x as usize), &bytes.len().saturating_sub(header));
+        }
+        Some(Err(e)) => m.fail("der.value_len", "Ok", &format!("Err({e:?})")),
+        None => {}
+    }
+    match elen {
+        Some(Ok(x)) => {
+            m.eq("der.encoded_len", &(x as usize), &bytes.len());
+        }
+        Some(Err(e)) => m.fail("der.encoded_len", "Ok", &format!("Err({e:?})")),
+        None => {}
+    }
+    if fits_u64(limbs) {
+        let p = <u64 as der::Encode>::to_der(&lo_u64(limbs)).expect("harness: der u64");
+        bytes_eq(m, "der.prim_u64", &bytes, &p);
+    }
+    if fits_u128(limbs) {
+        let p = <u128 as der::Encode>::to_der(&lo_u128(limbs)).expect("harness: der u128");
+        bytes_eq(m, "der.prim_u128", &bytes, &p);
+    }
+    let r = m.must(|| <Uint<B, L> as der::Decode>::from_der(&bytes));
+    decoded(m, "der.roundtrip", r, limbs);
+
+    // Conversions through the der crate's own ASN.1 value types.
+    if let Some(any) = m.must(|| Any::from(&v)) {
+        bytes_eq(m, "der.any.content", any.value(), &content);
+        m.eq("der.any.tag", &der::Tagged::tag(&any), &der::Tag::Integer);
+        let r = m.must(|| <Uint<B, L> as TryFrom<_>>::try_from(&any));
+        decoded(m, "der.any.roundtrip", r, limbs);
+        let r = m.must(|| <Uint<B, L> as TryFrom<_>>::try_from(der::asn1::AnyRef::from(&any)));
+        decoded(m, "der.anyref.roundtrip", r, limbs);
+    }
+    if let Some(any) = m.must(|| Any::from(v)) {
+        bytes_eq(m, "der.any.content", any.value(), &content);
+        let r = m.must(|| <Uint<B, L> as TryFrom<_>>::try_from(any));
+        decoded(m, "der.any.roundtrip", r, limbs);
+    }
+    if let Some(int) = m.must(|| Int::from(&v)) {
+        bytes_eq(m, "der.int.content", int.as_bytes(), &content);
+        let r = m.must(|| <Uint<B, L> as TryFrom<_>>::try_from(&int));
+        decoded(m, "der.int.roundtrip", r, limbs);
+        let r = m.must(|| <Uint<B, L> as TryFrom<_>>::try_from(der::asn1::IntRef::new(int.as_bytes()).expect("harness: IntRef")));
+        decoded(m, "der.intref.roundtrip", r, limbs);
+        let r = m.must(|| <Uint<B, L> as TryFrom<_>>::try_from(int));
+        decoded(m, "der.int.roundtrip", r, limbs);
+    }
+    if let Some(du) = m.must(|| DerUint::from(&v)) {
+        // the der crate's unsigned view: magnitude without the sign octet
+        let mut mag = be_min(limbs);
+        if mag.is_empty() {
+            mag.push(0);
+        }
+        bytes_eq(m, "der.uint.content", du.as_bytes(), &mag);
+        let r = m.must(|| <Uint<B, L> as TryFrom<_>>::try_from(&du));
+        decoded(m, "der.uint.roundtrip", r, limbs);
+        let r = m.must(|| <Uint<B, L> as TryFrom<_>>::try_from(der::asn1::UintRef::new(du.as_bytes()).expect("harness: UintRef")));
+        decoded(m, "der.uintref.roundtrip", r, limbs);
+        let r = m.must(|| <Uint<B, L> as TryFrom<_>>::try_from(du));
+        decoded(m, "der.uint.roundtrip", r, limbs);
+    }
+}
+
+// ---------------------------------------------------------------------------
+// postgres
+// ---------------------------------------------------------------------------
+
+fn pg_types() -> Vec<(postgres_types::Type, &'static str)> {
+    use postgres_types::Type;
+    vec![
+        (Type::BOOL, "BOOL"),
+        (Type::CHAR, "CHAR"),
+        (Type::INT2, "INT2"),
+        (Type::INT4, "INT4"),
+        (Type::INT8, "INT8"),
+        (Type::OID, "OID"),
+        (Type::FLOAT4, "FLOAT4"),
+        (Type::FLOAT8, "FLOAT8"),
+        (Type::MONEY, "MONEY"),
+        (Type::NUMERIC, "NUMERIC"),
+        (Type::BYTEA, "BYTEA"),
+        (Type::TEXT, "TEXT"),
+        (Type::VARCHAR, "VARCHAR"),
+        (Type::JSON, "JSON"),
+        (Type::JSONB, "JSONB"),
+        (Type::BIT, "BIT"),
+        (Type::VARBIT, "VARBIT"),
+    ]
+}
+
+/// postgres-types' own wire encoding of the equal primitive, where it has one.
+fn pg_prim(name: &str, limbs: &[u64]) -> Option<Vec<u8>> {
+    use postgres_types::{ToSql, Type};
+    if !fits_u64(limbs) {
+        return None;
+    }
+    let x = lo_u64(limbs);
+    let mut out = bytes::BytesMut::new();
+    let r = match name {
+        "BOOL" if x <= 1 => (x == 1).to_sql(&Type::BOOL, &mut out),
+        "INT2" if x <= i16::MAX as u64 => (x as i16).to_sql(&Type::INT2, &mut out),
+        "INT4" if x <= i32::MAX as u64 => (x as i32).to_sql(&Type::INT4, &mut out),
+        "INT8" if x <= i64::MAX as u64 => (x as i64).to_sql(&Type::INT8, &mut out),
+        "OID" if x <= u64::from(u32::MAX) => (x as u32).to_sql(&Type::OID, &mut out),
+        _ => return None,
+    };
+    r.expect("harness: postgres primitive");
+    Some(out.to_vec())
+}
+
+fn op_postgres<const B: usize, const L: usize>(m: &mut Mon, limbs: &[u64]) {
+    use postgres_types::{FromSql, IsNull, ToSql};
+    let v: Uint<B, L> = uint(limbs);
+    let mut okay: Vec<&'static str> = Vec::new();
+    for (ty, name) in pg_types() {
+        let float = matches!(name, "FLOAT4" | "FLOAT8");
+        if let Some(acc) = m.must(|| (<Uint<B, L> as ToSql>::accepts(&ty), <Uint<B, L> as FromSql>::accepts(&ty))) {
+            m.eq(&format!("postgres.accepts.{name}"), &acc, &(true, true));
+        }
+        let Some((r, raw)) = m.must(|| {
+            let mut out = bytes::BytesMut::new();
+            let r = <Uint<B, L> as ToSql>::to_sql(&v, &ty, &mut out);
+            (r.map(|n| matches!(n, IsNull::No)).map_err(|e| e.to_string()), out.to_vec())
+        }) else {
+            continue;
+        };
+        match r {
+            Err(_) => {
+                // value does not fit the column type: outside the property
+                continue;
+            }
+            Ok(false) => {
+                m.fail(&format!("postgres.null.{name}"), "IsNull::No", "IsNull::Yes");
+                continue;
+            }
+            Ok(true) => {}
+        }
+        okay.push(name);
+        m.note_add(&format!("postgres.to_sql_ok.{name}"), 1);
+        let back = m.must(|| <Uint<B, L> as FromSql>::from_sql(&ty, &raw).map_err(|e| e.to_string()));
+        if float {
+            // lossy by nature: only "no panic" and canonical form
+            if let Some(Ok(x)) = back {
+                m.canonical(&x);
+            }
+            continue;
+        }
+        decoded(m, &format!("postgres.roundtrip.{name}"), back, limbs);
+        if let Some(p) = pg_prim(name, limbs) {
+            bytes_eq(m, &format!("postgres.prim.{name}"), &raw, &p);
+        }
+        match name {
+            // documented: "JSON, JSONB as a hex string compatible with the Serde serialization"
+            "JSON" => {
+                bytes_eq(m, "postgres.json.text", &raw, format!("\"{}\"", ref_quantity(limbs)).as_bytes());
+            }
+            "JSONB" => {
+                let mut exp = vec![1u8];
+                exp.extend_from_slice(format!("\"{}\"", ref_quantity(limbs)).as_bytes());
+                bytes_eq(m, "postgres.jsonb.text", &raw, &exp);
+            }
+            _ => {}
+        }
+    }
+    m.obs(|| format!("round-tripped column types: {}", okay.join(",")));
+}
+
+// ---------------------------------------------------------------------------
+// num-bigint
+// ---------------------------------------------------------------------------
+
+fn op_num_bigint<const B: usize, const L: usize>(m: &mut Mon, limbs: &[u64]) {
+    let v: Uint<B, L> = uint(limbs);
+    let bu = big::big(limbs);
+    let bi = BigInt::from(bu.clone());
+    m.obs(|| format!("biguint={}", big::bhex(&bu)));
+    if let Some(x) = m.must(|| BigUint::from(v)) {
+        m.eq("num_bigint.biguint.from", &x, &bu);
+    }
+    if let Some(x) = m.must(|| BigUint::from(&v)) {
+        m.eq("num_bigint.biguint.from_ref", &x, &bu);
+    }
+    if let Some(x) = m.must(|| BigInt::from(v)) {
+        m.eq("num_bigint.bigint.from", &x, &bi);
+    }
+    if let Some(x) = m.must(|| BigInt::from(&v)) {
+        m.eq("num_bigint.bigint.from_ref", &x, &bi);
+    }
+    let r = m.must(|| <Uint<B, L> as TryFrom<_>>::try_from(bu.clone()));
+    decoded(m, "num_bigint.biguint.roundtrip", r, limbs);
+    let r = m.must(|| <Uint<B, L> as TryFrom<_>>::try_from(&bu));
+    decoded(m, "num_bigint.biguint.roundtrip_ref", r, limbs);
+    let r = m.must(|| <Uint<B, L> as TryFrom<_>>::try_from(bi.clone()));
+    decoded(m, "num_bigint.bigint.roundtrip", r, limbs);
+    let r = m.must(|| <Uint<B, L> as TryFrom<_>>::try_from(&bi));
+    decoded(m, "num_bigint.bigint.roundtrip_ref", r, limbs);
+}
+
+// ---------------------------------------------------------------------------
+// primitive-types (fixed widths)
+// ---------------------------------------------------------------------------
+
+macro_rules! pt_uint {
+    ($m:ident, $limbs:ident, $w:literal, $l:literal, $theirs:ident) => {{
+        let v: Uint<$w, $l> = uint($limbs);
+        if let Some(t) = $m.must(|| primitive_types::$theirs::from(v)) {
+            $m.check(t.0[..] == $limbs[..], "primitive_types.uint.limbs", || big::hex($limbs), || big::hex(&t.0));
+            // the foreign type's own big-endian byte view
+            let mut be = [0u8; $w / 8];
+            t.to_big_endian(&mut be);
+            bytes_eq($m, "primitive_types.uint.be_bytes", &be, &be_bytes($limbs, $w / 8));
+            if let Some(back) = $m.must(|| <Uint<$w, $l> as From<_>>::from(t)) {
+                $m.eq_uint("primitive_types.uint.roundtrip", &back, $limbs);
+            }
+        }
+        // and starting from a foreign value built from the raw limbs
+        let mut arr = [0u64; $l];
+        arr.copy_from_slice($limbs);
+        if let Some(x) = $m.must(|| <Uint<$w, $l> as From<_>>::from(primitive_types::$theirs(arr))) {
+            $m.eq_uint("primitive_types.uint.from_theirs", &x, $limbs);
+        }
+    }};
+}
+
+macro_rules! pt_hash {
+    ($m:ident, $limbs:ident, $w:literal, $l:literal, $theirs:ident) => {{
+        let v: Uint<$w, $l> = uint($limbs);
+        let b: Bits<$w, $l> = Bits::from(v);
+        let want = be_bytes($limbs, $w / 8);
+        if let Some(h) = $m.must(|| primitive_types::$theirs::from(b)) {
+            bytes_eq($m, "primitive_types.hash.bytes", &h.0, &want);
+            if let Some(back) = $m.must(|| Bits::<$w, $l>::from(h).into_inner()) {
+                $m.eq_uint("primitive_types.hash.roundtrip", &back, $limbs);
+            }
+        }
+        if let Some(x) = $m.must(|| Bits::<$w, $l>::from(primitive_types::$theirs::from_slice(&want)).into_inner()) {
+            $m.eq_uint("primitive_types.hash.from_theirs", &x, $limbs);
+        }
+    }};
+}
+
+fn op_primitive_types(m: &mut Mon, bits: usize, limbs: &[u64]) {
+    m.obs(|| format!("value={}", big::hex(limbs)));
+    match bits {
+        128 => {
+            pt_uint!(m, limbs, 128, 2, U128);
+            pt_hash!(m, limbs, 128, 2, H128);
+        }
+        160 => pt_hash!(m, limbs, 160, 3, H160),
+        256 => {
+            pt_uint!(m, limbs, 256, 4, U256);
+            pt_hash!(m, limbs, 256, 4, H256);
+        }
+        512 => {
+            pt_uint!(m, limbs, 512, 8, U512);
+            pt_hash!(m, limbs, 512, 8, H512);
+        }
+        _ => panic!("harness: primitive_types not implemented at width {bits}"),
+    }
+}
+
+// ---------------------------------------------------------------------------
+// bytemuck (fixed widths)
+// ---------------------------------------------------------------------------
+
+macro_rules! pod_at {
+    ($m:ident, $limbs:ident, $w:literal, $l:literal) => {{
+        type U = Uint<$w, $l>;
+        let v: U = uint($limbs);
+        let mut arr = [0u64; $l];
+        arr.copy_from_slice($limbs);
+        // byte view of the limb array itself (same layout by `repr(transparent)`)
+        let want: Vec<u8> = bytemuck::bytes_of(&arr).to_vec();
+        let mut ne = Vec::with_capacity(8 * $l);
+        for l in $limbs {
+            ne.extend_from_slice(&l.to_ne_bytes());
+        }
+        assert!(ne == want, "harness: native limb bytes");
+        if let Some(b) = $m.must(|| bytemuck::bytes_of(&v).to_vec()) {
+            bytes_eq($m, "bytemuck.bytes_of", &b, &want);
+        }
+        // unaligned read at an odd offset
+        let mut buf = vec![0u8; 1 + want.len()];
+        buf[1..].copy_from_slice(&want);
+        if let Some(x) = $m.must(|| bytemuck::pod_read_unaligned::<U>(&buf[1..])) {
+            $m.eq_uint("bytemuck.pod_read_unaligned", &x, $limbs);
+        }
+        if let Some(x) = $m.must(|| bytemuck::cast::<U, [u64; $l]>(v)) {
+            $m.eq("bytemuck.cast.to_limbs", &x, &arr);
+        }
+        if let Some(x) = $m.must(|| bytemuck::cast::<[u64; $l], U>(arr)) {
+            $m.eq_uint("bytemuck.cast.from_limbs", &x, $limbs);
+        }
+        if let Some(x) = $m.must(|| *bytemuck::from_bytes::<U>(bytemuck::bytes_of(&arr))) {
+            $m.eq_uint("bytemuck.from_bytes", &x, $limbs);
+        }
+        if let Some(x) = $m.must(|| {
+            let mut z = <U as bytemuck::Zeroable>::zeroed();
+            bytemuck::bytes_of_mut(&mut z).copy_from_slice(&want);
+            z
+        }) {
+            $m.eq_uint("bytemuck.bytes_of_mut", &x, $limbs);
+        }
+    }};
+}
+
+fn op_bytemuck(m: &mut Mon, bits: usize, limbs: &[u64]) {
+    m.obs(|| format!("value={}", big::hex(limbs)));
+    match bits {
+        64 => pod_at!(m, limbs, 64, 1),
+        128 => pod_at!(m, limbs, 128, 2),
+        192 => pod_at!(m, limbs, 192, 3),
+        256 => pod_at!(m, limbs, 256, 4),
+        320 => pod_at!(m, limbs, 320, 5),
+        384 => pod_at!(m, limbs, 384, 6),
+        448 => pod_at!(m, limbs, 448, 7),
+        512 => pod_at!(m, limbs, 512, 8),
+        1024 => pod_at!(m, limbs, 1024, 16),
+        _ => panic!("harness: bytemuck Pod not implemented at width {bits}"),
+    }
+}
+
+// ---------------------------------------------------------------------------
+// ark-ff 0.3 (fixed widths) and 0.4 (generic)
+// ---------------------------------------------------------------------------
+
+fn modulus(dec: &str) -> BigUint {
+    dec.parse().expect("harness: modulus literal")
+}
+
+macro_rules! ark03_big {
+    ($m:ident, $limbs:ident, $w:literal, $l:literal, $ark:ident) => {{
+        use ark_ff_03::biginteger::$ark;
+        let v: Uint<$w, $l> = uint($limbs);
+        if let Some(x) = $m.must(|| $ark::from(v)) {
+            $m.check(x.0[..] == $limbs[..], "ark_ff_03.bigint.limbs", || big::hex($limbs), || big::hex(&x.0));
+            if let Some(back) = $m.must(|| <Uint<$w, $l> as From<_>>::from(x)) {
+                $m.eq_uint("ark_ff_03.bigint.roundtrip", &back, $limbs);
+            }
+            if let Some(back) = $m.must(|| <Uint<$w, $l> as From<_>>::from(&x)) {
+                $m.eq_uint("ark_ff_03.bigint.roundtrip_ref", &back, $limbs);
+            }
+        }
+        if let Some(x) = $m.must(|| $ark::from(&v)) {
+            $m.check(x.0[..] == $limbs[..], "ark_ff_03.bigint.limbs_ref", || big::hex($limbs), || big::hex(&x.0));
+        }
+    }};
+}
+
+macro_rules! ark03_field {
+    ($m:ident, $limbs:ident, $field:ident, $params:ident, $modulus:ident, $tag:literal) => {{
+        use ark_ff_03::{FpParameters, PrimeField};
+        let p = modulus($modulus);
+        assert!(
+            big::big(&<ark_bn254_03::$params as FpParameters>::MODULUS.0) == p,
+            "harness: bn254 modulus literal disagrees with ark-bn254 0.3"
+        );
+        let v: Uint<256, 4> = uint($limbs);
+        let in_field = big::big($limbs) < p;
+        for by_ref in [false, true] {
+            let r = $m.must(|| {
+                if by_ref {
+                    ark_bn254_03::$field::try_from(&v)
+                } else {
+                    ark_bn254_03::$field::try_from(v)
+                }
+            });
+            match r {
+                Some(Ok(f)) => {
+                    $m.check(in_field, concat!("ark_ff_03.", $tag, ".not_in_field"), || "Err(NotInField) for value >= modulus".into(), || "Ok".into());
+                    let repr = f.into_repr();
+                    $m.check(repr.0[..] == $limbs[..], concat!("ark_ff_03.", $tag, ".repr"), || big::hex($limbs), || big::hex(&repr.0));
+                    if let Some(back) = $m.must(|| <Uint<256, 4> as From<_>>::from(f)) {
+                        $m.eq_uint(concat!("ark_ff_03.", $tag, ".roundtrip"), &back, $limbs);
+                    }
+                    if let Some(back) = $m.must(|| <Uint<256, 4> as From<_>>::from(&f)) {
+                        $m.eq_uint(concat!("ark_ff_03.", $tag, ".roundtrip_ref"), &back, $limbs);
+                    }
+                }
+                Some(Err(ruint::ToFieldError::NotInField)) => {
+                    $m.check(!in_field, concat!("ark_ff_03.", $tag, ".not_in_field"), || "Ok for value < modulus".into(), || "Err(NotInField)".into());
+                }
+                None => {}
+            }
+        }
+    }};
+}
+
+fn op_ark_ff_03(m: &mut Mon, bits: usize, limbs: &[u64]) {
+    m.obs(|| format!("value={}", big::hex(limbs)));
+    match bits {
+        64 => ark03_big!(m, limbs, 64, 1, BigInteger64),
+        128 => ark03_big!(m, limbs, 128, 2, BigInteger128),
+        256 => {
+            ark03_big!(m, limbs, 256, 4, BigInteger256);
+            ark03_field!(m, limbs, Fr, FrParameters, BN254_FR, "fr");
+            ark03_field!(m, limbs, Fq, FqParameters, BN254_FQ, "fq");
+        }
+        320 => ark03_big!(m, limbs, 320, 5, BigInteger320),
+        384 => ark03_big!(m, limbs, 384, 6, BigInteger384),
+        448 => ark03_big!(m, limbs, 448, 7, BigInteger448),
+        _ => panic!("harness: ark-ff 0.3 not implemented at width {bits}"),
+    }
+}
+
+fn op_ark_ff_04<const B: usize, const L: usize>(m: &mut Mon, limbs: &[u64]) {
+    use ark_ff_04::BigInt as ArkBig;
+    let v: Uint<B, L> = uint(limbs);
+    m.obs(|| format!("value={}", big::hex(limbs)));
+    if let Some(x) = m.must(|| ArkBig::<L>::from(v)) {
+        m.check(x.0[..] == limbs[..], "ark_ff_04.bigint.limbs", || big::hex(limbs), || big::hex(&x.0));
+        if let Some(back) = m.must(|| <Uint<B, L> as From<_>>::from(x)) {
+            m.eq_uint("ark_ff_04.bigint.roundtrip", &back, limbs);
+        }
+        if let Some(back) = m.must(|| <Uint<B, L> as From<_>>::from(&x)) {
+            m.eq_uint("ark_ff_04.bigint.roundtrip_ref", &back, limbs);
+        }
+    }
+    if let Some(x) = m.must(|| ArkBig::<L>::from(&v)) {
+        m.check(x.0[..] == limbs[..], "ark_ff_04.bigint.limbs_ref", || big::hex(limbs), || big::hex(&x.0));
+    }
+    match B {
+        250 => ark04_fields::<250>(m, limbs),
+        255 => ark04_fields::<255>(m, limbs),
+        256 => ark04_fields::<256>(m, limbs),
+        _ => {}
+    }
+}
+
+macro_rules! ark04_field {
+    ($m:ident, $limbs:ident, $field:ident, $modulus:ident, $tag:literal) => {{
+        use ark_ff_04::PrimeField;
+        let p = modulus($modulus);
+        assert!(
+            big::big(&<ark_bn254_04::$field as PrimeField>::MODULUS.0) == p,
+            "harness: bn254 modulus literal disagrees with ark-bn254 0.4"
+        );
+        let v: Uint<B, 4> = uint($limbs);
+        let in_field = big::big($limbs) < p;
+        for by_ref in [false, true] {
+            let r = $m.must(|| {
+                if by_ref {
+                    ark_bn254_04::$field::try_from(&v)
+                } else {
+                    ark_bn254_04::$field::try_from(v)
+                }
+            });
+            match r {
+                Some(Ok(f)) => {
+                    $m.check(in_field, concat!("ark_ff_04.", $tag, ".not_in_field"), || "Err(NotInField) for value >= modulus".into(), || "Ok".into());
+                    let repr = f.into_bigint();
+                    $m.check(repr.0[..] == $limbs[..], concat!("ark_ff_04.", $tag, ".repr"), || big::hex($limbs), || big::hex(&repr.0));
+                    if let Some(back) = $m.must(|| <Uint<B, 4> as From<_>>::from(f)) {
+                        $m.eq_uint(concat!("ark_ff_04.", $tag, ".roundtrip"), &back, $limbs);
+                    }
+                    if let Some(back) = $m.must(|| <Uint<B, 4> as From<_>>::from(&f)) {
+                        $m.eq_uint(concat!("ark_ff_04.", $tag, ".roundtrip_ref"), &back, $limbs);
+                    }
+                }
+                Some(Err(ruint::ToFieldError::NotInField)) => {
+                    $m.check(!in_field, concat!("ark_ff_04.", $tag, ".not_in_field"), || "Ok for value < modulus".into(), || "Err(NotInField)".into());
+                }
+                None => {}
+            }
+        }
+    }};
+}
+
+/// bn254 scalar and base field on every 4-limb width.
+fn ark04_fields<const B: usize>(m: &mut Mon, limbs: &[u64]) {
+    ark04_field!(m, limbs, Fr, BN254_FR, "fr");
+    ark04_field!(m, limbs, Fq, BN254_FQ, "fq");
+}
+
+// ---------------------------------------------------------------------------
+// Dispatch
+// ---------------------------------------------------------------------------
+
+fn exec<const B: usize, const L: usize>(m: &mut Mon, op: &str, a: &[Arg]) {
+    let limbs = a[0].u();
+    assert!(limbs.len() == L, "harness: operand has {} limbs, width {} needs {}", limbs.len(), B, L);
+    m.nontrivial(ge2(limbs));
+    match op {
+        "serde_json" => op_json::<B, L>(m, limbs),
+        "bincode" => op_bincode::<B, L>(m, limbs),
+        "rlp" => op_rlp::<B, L>(m, limbs),
+        "alloy_rlp" => {
+            if let Some(bytes) = op_alloy_rlp::<B, L>(m, limbs) {
+                alloy_extra::<B, L>(m, limbs, &bytes);
+            }
+        }
+        "fastrlp_03" => {
+            if let Some(bytes) = op_fastrlp_03::<B, L>(m, limbs) {
+                fastrlp_03_fixed(m, B, limbs, &bytes);
+            }
+        }
+        "fastrlp_04" => {
+            if let Some(bytes) = op_fastrlp_04::<B, L>(m, limbs) {
+                fastrlp_04_fixed(m, B, limbs, &bytes);
+            }
+        }
+        "scale_fixed" => op_scale_fixed::<B, L>(m, limbs),
+        "scale_compact" => op_scale_compact::<B, L>(m, limbs),
+        "ssz" => op_ssz::<B, L>(m, limbs),
+        "borsh" => op_borsh::<B, L>(m, limbs),
+        "der" => op_der::<B, L>(m, limbs),
+        "postgres" => op_postgres::<B, L>(m, limbs),
+        "num_bigint" => op_num_bigint::<B, L>(m, limbs),
+        "primitive_types" => op_primitive_types(m, B, limbs),
+        "bytemuck" => op_bytemuck(m, B, limbs),
+        "ark_ff_03" => op_ark_ff_03(m, B, limbs),
+        "ark_ff_04" => op_ark_ff_04::<B, L>(m, limbs),
+        _ => panic!("harness: unknown op {op}"),
+    }
+}
+
+/// The integrations that exist at a width.
+fn ops_for(bits: usize) -> Vec<&'static str> {
+    let mut v = vec![
+        "serde_json", "bincode", "rlp", "alloy_rlp", "fastrlp_03", "fastrlp_04", "scale_fixed", "ssz", "borsh",
+        "der", "postgres", "num_bigint", "ark_ff_04",
+    ];
+    if bits < COMPACT_LIMIT {
+        v.push("scale_compact");
+    }
+    if matches!(bits, 128 | 160 | 256 | 512) {
+        v.push("primitive_types");
+    }
+    if matches!(bits, 64 | 128 | 192 | 256 | 320 | 384 | 448 | 512 | 1024) {
+        v.push("bytemuck");
+    }
+    if matches!(bits, 64 | 128 | 256 | 320 | 384 | 448) {
+        v.push("ark_ff_03");
+    }
+    v
+}
+
+// ---------------------------------------------------------------------------
+// Workload
+// ---------------------------------------------------------------------------
+
+/// Fixed, seed-independent corpus: small values in wide types and every
+/// format's mode boundaries.
+fn directed(bits: usize) -> Vec<Vec<u64>> {
+    if bits == 0 {
+        return vec![vec![]];
+    }
+    let n = gen::nlimbs(bits);
+    let mut seen: HashSet<Vec<u64>> = HashSet::new();
+    let mut out: Vec<Vec<u64>> = Vec::new();
+    let mut push = |v: &BigUint| {
+        if big::fits(v, bits) {
+            let l = big::limbs(v, n);
+            if seen.insert(l.clone()) {
+                out.push(l);
+            }
+        }
+    };
+    for v in gen::boundary(bits) {
+        push(&big::big(&v));
+    }
+    // small values in wide types
+    for x in 0..=300u32 {
+        push(&BigUint::from(x));
+    }
+    // mode boundaries of RLP (0x7f/0x80), SCALE compact (2^6, 2^14, 2^30),
+    // postgres integer columns (2^15, 2^31, 2^32, 2^63), u64/u128 fast paths
+    for k in [6usize, 7, 8, 14, 15, 16, 24, 30, 31, 32, 33, 56, 62, 63, 64, 65, 120, 126, 127, 128, 129] {
+        let c = big::p2(k);
+        for d in 0..=2u32 {
+            push(&(&c + d));
+            push(&(&c - d));
+        }
+    }
+    // MONEY: largest i64 that survives *100
+    for d in 0..=2u64 {
+        push(&BigUint::from(92_233_720_368_547_758u64 - 1 + d));
+    }
+    // byte-length boundaries: 2^(8k)-1, 2^(8k), and the sign-bit boundary
+    // 2^(8k-1) of DER; covers the 55/56-byte RLP and 127/128-byte DER cases
+    for k in 1..=nbytes(bits) {
+        let c = big::p2(8 * k);
+        let h = big::p2(8 * k - 1);
+        push(&(&c - 1u32));
+        push(&c);
+        push(&(&c + 1u32));
+        push(&(&h - 1u32));
+        push(&h);
+        push(&(&h + 1u32));
+    }
+    // payloads of an exact byte length with a chosen top byte
+    for len in [1usize, 2, 3, 4, 5, 7, 8, 9, 15, 16, 17, 31, 32, 33, 54, 55, 56, 57, 63, 64, 65, 66, 67, 68, 127, 128] {
+        for top in [0x01u8, 0x7f, 0x80, 0xff] {
+            let mut be = vec![top];
+            for i in 1..len {
+                be.push((i as u8).wrapping_mul(0x3d) ^ 0x5a);
+            }
+            push(&BigUint::from_bytes_be(&be));
+            // and with zero low bytes (trailing zeros in LE/NUMERIC-like trimming)
+            let mut be = vec![top];
+            be.resize(len, 0);
+            push(&BigUint::from_bytes_be(&be));
+        }
+    }
+    // NUMERIC: base-10000 digit boundaries, trailing zero digits are trimmed
+    let t = BigUint::from(10_000u32);
+    let mut p = BigUint::from(1u32);
+    for k in 1..=80u32 {
+        p *= &t;
+        if !big::fits(&p, bits) {
+            break;
+        }
+        if k <= 6 || k % 8 == 0 || k % 19 <= 1 || !big::fits(&(&p * &t * &t), bits) {
+            push(&(&p - 1u32));
+            push(&p);
+            push(&(&p + 1u32));
+            push(&(&p * 9999u32));
+            push(&(&p * 5u32));
+        }
+    }
+    // bn254 moduli (ark-ff NotInField boundary)
+    for s in [BN254_FR, BN254_FQ] {
+        let q = modulus(s);
+        for d in 0..=2u32 {
+            push(&(&q + d));
+            push(&(&q - d));
+        }
+    }
+    out
+}
+
+fn not_limbs(v: &[u64], bits: usize) -> Vec<u64> {
+    gen::canon(v.iter().map(|x| !x).collect(), bits)
+}
+
+/// Widths at which every value is tried with every integration.
+const EXHAUSTIVE_BITS: usize = 16;
+
+fn workload(m: &mut Mon, bits: usize) {
+    let ops = ops_for(bits);
+    // Light lanes (Miri, memcheck) enumerate only up to 9 bits and sample the
+    // wider "exhaustive" widths like any other width.
+    if bits <= EXHAUSTIVE_BITS && !(m.is_light() && bits > 9) {
+        // Exhaustive sub-space: all 2^BITS values.
+        for op in &ops {
+            for x in 0..(1u64 << bits) {
+                if x % 1024 == 0 && m.time_up() {
+                    return;
+                }
+                if !m.keep() {
+                    continue;
+                }
+                m.case(op, bits, vec![au(&gen::small(x, bits))]);
+            }
+        }
+        if !m.is_light() {
+            m.mark_exhaustive(format!("all 2^{bits} values x all integrations at BITS={bits}"));
+        }
+        return;
+    }
+    // Directed corpus.
+    let vals = directed(bits);
+    for op in &ops {
+        for (i, v) in vals.iter().enumerate() {
+            if i % 512 == 0 && m.time_up() {
+                return;
+            }
+            if !m.keep() {
+                continue;
+            }
+            m.case(op, bits, vec![au(v)]);
+        }
+    }
+    // Random: hostile shapes, random bit/byte lengths, small values in wide types.
+    let mut r = m.stream("c16.random", bits);
+    let iters = m.iters(if bits <= 64 { 16000 } else if bits <= 256 { 14000 } else if bits <= 512 { 10000 } else { 6000 });
+    let mut done = 0;
+    while done < iters {
+        if m.time_up() {
+            break;
+        }
+        let block = (iters - done).min(128);
+        done += block;
+        let mut vals: Vec<Vec<u64>> = Vec::with_capacity(block);
+        for _ in 0..block {
+            let v = match r.below(10) {
+                0 | 1 | 2 => gen::hostile(&mut r, bits),
+                3 | 4 => {
+                    let len = r.range(0, bits);
+                    gen::with_bit_len(&mut r, len, bits)
+                }
+                5 => {
+                    // exact byte length, random top byte class
+                    let bytes = r.range(1, nbytes(bits));
+                    let len = (8 * bytes - r.below(8)).min(bits);
+                    gen::with_bit_len(&mut r, len, bits)
+                }
+                6 => {
+                    // small value in a wide type
+                    let len = r.range(0, bits.min(34));
+                    gen::with_bit_len(&mut r, len, bits)
+                }
+                7 => not_limbs(&gen::hostile(&mut r, bits), bits),
+                8 => gen::alphabet(&mut r, bits),
+                _ => gen::uniform(&mut r, bits),
+            };
+            vals.push(v);
+        }
+        for op in &ops {
+            for v in &vals {
+                m.case(op, bits, vec![au(v)]);
+            }
+        }
+    }
+}
+
+fn main() {
+    let mut m = Mon::new("C16", dispatch);
+    if !m.replay_if_requested() {
+        for &bits in WIDTHS {
+            if m.width_enabled(bits) {
+                workload(&mut m, bits);
+            }
+        }
+    }
+    m.finish();
+}
